@@ -1,5 +1,176 @@
+import BlockCiphers.Proofs.BlowfishSpec
+import BlockCiphers.Proofs.Blowfish
+import BlockCiphers.Proofs.Cast5Spec
+import BlockCiphers.Proofs.Cast5
+import BlockCiphers.Proofs.IdeaSpec
+import BlockCiphers.Proofs.Rc2Spec
+import BlockCiphers.Proofs.Rc2
+import BlockCiphers.Proofs.Xtea
 /-
-C09 — theorem file (property theorems only).  Filled in as the models it needs are merged; see DESIGN §7 C09.
+C09 — Blowfish, CAST5, IDEA, RC2 and XTEA conform to their specifications
+GENERATED statement file (tools/gen_thm.py): every theorem below restates, verbatim, a theorem of a Proofs/ module
+and is proved by applying it.  ONLY property theorems and non-vacuity examples live in Thm/.
+XTEA: the Rust is the published algorithm transcribed (32 cycles as 4x8, key word by sum&3 / (sum>>11)&3); its model is Impl/Xtea.lean and
+the round-trip theorem is in C01; there is no separate specification text to equate it with.
 -/
-namespace BC.Thm.C09
-end BC.Thm.C09
+
+namespace BC.Blowfish
+/-- C09: for every key length 4..56, `new` yields the published key schedule -/
+theorem C09.blowfish_new_eq_spec (key : Array (BitVec 8)) (h : accepts key.size = true) :
+    new key = some (Spec.keySchedule key) :=
+  _root_.BC.Blowfish.new_eq_spec key h
+end BC.Blowfish
+
+namespace BC.Blowfish
+/-- C09: `encrypt` of the crate = Blowfish encryption as published, for every state -/
+theorem C09.blowfish_encrypt_eq_spec (st : State) (x : LR) : encrypt st x = Spec.encrypt st x :=
+  _root_.BC.Blowfish.encrypt_eq_spec st x
+end BC.Blowfish
+
+namespace BC.Blowfish
+/-- C09: `decrypt` of the crate = Blowfish decryption as published (P in reverse order) -/
+theorem C09.blowfish_decrypt_eq_spec (st : State) (x : LR) : decrypt st x = Spec.decrypt st x :=
+  _root_.BC.Blowfish.decrypt_eq_spec st x
+end BC.Blowfish
+
+namespace BC.Blowfish
+/-- C09: for every non-empty buffer and every legal offset standing for word position `j` of the
+cyclic stream, `next_u32_wrap` returns big-endian word `j` and an offset standing for word `j+1` -/
+theorem C09.next_u32_wrap_spec (buf : Array (BitVec 8)) (h : 0 < buf.size) (off j : Nat)
+    (hi : PosInv buf off (4 * j)) :
+    (next_u32_wrap buf off).v = Spec.cycWord buf j
+      ∧ PosInv buf (next_u32_wrap buf off).off (4 * (j + 1)) :=
+  _root_.BC.Blowfish.next_u32_wrap_spec buf h off j hi
+end BC.Blowfish
+
+namespace BC.Blowfish
+theorem C09.encryptBlock_LE (st : State) (b : BitVec 64) :
+    encryptBlock .LE st b = bswapHalves (encryptBlock .BE st (bswapHalves b)) :=
+  _root_.BC.Blowfish.encryptBlock_LE st b
+end BC.Blowfish
+
+namespace BC.Blowfish
+theorem C09.decryptBlock_LE (st : State) (b : BitVec 64) :
+    decryptBlock .LE st b = bswapHalves (decryptBlock .BE st (bswapHalves b)) :=
+  _root_.BC.Blowfish.decryptBlock_LE st b
+end BC.Blowfish
+
+namespace BC.Blowfish
+theorem C09.blowfish_new_isSome_iff (key : Array (BitVec 8)) : (new key).isSome ↔ 4 ≤ key.size ∧ key.size ≤ 56 :=
+  _root_.BC.Blowfish.new_isSome_iff key
+end BC.Blowfish
+
+namespace BC.Cast5
+/-- C09: for every accepted key, `encrypt_block` / `decrypt_block` are RFC 2144's algorithm with the
+round count of §2.5 -/
+theorem C09.cast5_encrypt_new_eq_spec (key : Bytes) (ks : Keys) (h : new key = some ks) (b : BitVec 64) :
+    encrypt ks b = Spec.encrypt ks (Spec.rounds (8 * key.length)) b :=
+  _root_.BC.Cast5.encrypt_new_eq_spec key ks h b
+end BC.Cast5
+
+namespace BC.Cast5
+theorem C09.cast5_decrypt_new_eq_spec (key : Bytes) (ks : Keys) (h : new key = some ks) (b : BitVec 64) :
+    decrypt ks b = Spec.decrypt ks (Spec.rounds (8 * key.length)) b :=
+  _root_.BC.Cast5.decrypt_new_eq_spec key ks h b
+end BC.Cast5
+
+namespace BC.Cast5
+/-- the round count of the instance built from `key` is the RFC's rule on the key size in bits -/
+theorem C09.nRounds_new (key : Bytes) (ks : Keys) (h : new key = some ks) :
+    nRounds ks = Spec.rounds (8 * key.length) :=
+  _root_.BC.Cast5.nRounds_new key ks h
+end BC.Cast5
+
+namespace BC.Cast5
+/-- RFC 2144 §2.5: 12 rounds for key sizes up to and including 80 bits, 16 rounds above -/
+theorem C09.small_key_iff (n : Nat) : small_key n = true ↔ 8 * n ≤ 80 :=
+  _root_.BC.Cast5.small_key_iff n
+end BC.Cast5
+
+namespace BC.Cast5
+/-- RFC 2144 §2.5: a short key is the 128-bit key obtained by padding with zero bytes — the schedule of
+a key of 11..15 bytes is the schedule of the padded 16-byte key (same round count) -/
+theorem C09.new_padded (key : Bytes) (h1 : 11 ≤ key.length) (h2 : key.length ≤ 16) :
+    new key = new (pad key) :=
+  _root_.BC.Cast5.new_padded key h1 h2
+end BC.Cast5
+
+namespace BC.Cast5
+theorem C09.cast5_new_isSome_iff (key : Bytes) : (new key).isSome ↔ 5 ≤ key.length ∧ key.length ≤ 16 :=
+  _root_.BC.Cast5.new_isSome_iff key
+end BC.Cast5
+
+namespace BC.Idea
+open BC.Spec
+/-- **Impl = Spec** (encryption), all keys, all blocks -/
+theorem C09.idea_encrypt_eq_spec (key : BitVec 128) (b : BitVec 64) :
+    encrypt (new key) b = Spec.Idea.encrypt key b :=
+  _root_.BC.Idea.encrypt_eq_spec key b
+end BC.Idea
+
+namespace BC.Idea
+open BC.Spec
+/-- **Impl = Spec** (decryption): `decrypt_block` is the standard's data path with the key schedule `dec_keys`,
+and `dec_keys` is the decryption key schedule of Table 13.4 for `Z key` (`new_isDecKeys`). -/
+theorem C09.idea_decrypt_eq_spec (key : BitVec 128) (b : BitVec 64) :
+    decrypt (new key) b = Spec.Idea.cryptWith (keyFn (new key).dec) b :=
+  _root_.BC.Idea.decrypt_eq_spec key b
+end BC.Idea
+
+namespace BC.Idea
+open BC.Spec
+/-- **`expand_key` = the 52 sub-keys of the standard** (25-bit left rotations of the 128-bit key) -/
+theorem C09.expandKey_eq_Z (key : BitVec 128) (i : Nat) (h : i < 52) :
+    (expandKey key).getD i 0#16 = Spec.Idea.Z key i :=
+  _root_.BC.Idea.expandKey_eq_Z key i h
+end BC.Idea
+
+namespace BC.Idea
+open BC.Spec
+theorem C09.new_isDecKeys (key : BitVec 128) :
+    Spec.Idea.IsDecKeys (Spec.Idea.Z key) (keyFn (new key).dec) :=
+  _root_.BC.Idea.new_isDecKeys key
+end BC.Idea
+
+namespace BC.Rc2
+open BC.Spec.Rc2
+/-- **C09**: `Rc2::new_with_eff_key_len(key, t1)` then `encrypt_block` / `decrypt_block` compute RFC 2268
+with `T1 = t1` (every key, every effective length — in particular 1..=128 bytes, 1..=1024 bits) -/
+theorem C09.rc2eff_encrypt_conforms (key : Bytes) (t1 : Nat) (blk : Bytes) (h : blk.length = 8) :
+    liftBlock 8 (encrypt (newWithEffKeyLen key t1)) blk = BC.Spec.Rc2.encrypt key t1 blk :=
+  _root_.BC.Rc2.rc2eff_encrypt_conforms key t1 blk h
+end BC.Rc2
+
+namespace BC.Rc2
+open BC.Spec.Rc2
+theorem C09.rc2eff_decrypt_conforms (key : Bytes) (t1 : Nat) (blk : Bytes) (h : blk.length = 8) :
+    liftBlock 8 (decrypt (newWithEffKeyLen key t1)) blk = BC.Spec.Rc2.decrypt key t1 blk :=
+  _root_.BC.Rc2.rc2eff_decrypt_conforms key t1 blk h
+end BC.Rc2
+
+namespace BC.Rc2
+open BC.Spec.Rc2
+/-- **C09 + C11**: `Rc2::new_from_slice(key)` (1..=128 bytes) is RFC 2268 with `T1 = 8·len` -/
+theorem C09.rc2_conforms (key : Bytes) (hk : 1 ≤ key.length ∧ key.length ≤ 128) (blk : Bytes) (h : blk.length = 8) :
+    ∃ ks, newFromSlice key = some ks ∧
+      liftBlock 8 (encrypt ks) blk = BC.Spec.Rc2.encrypt key (8 * key.length) blk ∧
+      liftBlock 8 (decrypt ks) blk = BC.Spec.Rc2.decrypt key (8 * key.length) blk :=
+  _root_.BC.Rc2.rc2_conforms key hk blk h
+end BC.Rc2
+
+namespace BC.Rc2
+open BC.Spec.Rc2
+/-- the statement in the form of the property: all key lengths 1..128, all effective lengths 1..1024
+(exactly the arguments for which `new_with_eff_key_len` returns, `effPanic_none_iff`) -/
+theorem C09.expandKey_eq_spec_domain (key : Bytes) (t1 : Nat)
+    (_hk : 1 ≤ key.length ∧ key.length ≤ 128) (_ht : 1 ≤ t1 ∧ t1 ≤ 1024) :
+    newWithEffKeyLen key t1 = BC.Spec.Rc2.expandKey key t1 :=
+  _root_.BC.Rc2.expandKey_eq_spec_domain key t1 _hk _ht
+end BC.Rc2
+
+namespace BC.Rc2
+/-- **C11**: `new_from_slice key` succeeds exactly for 1..=128 bytes and is `new_with_eff_key_len key (8·len)` -/
+theorem C09.newFromSlice_eq (key : Bytes) (h : 1 ≤ key.length ∧ key.length ≤ 128) :
+    newFromSlice key = some (newWithEffKeyLen key (8 * key.length)) :=
+  _root_.BC.Rc2.newFromSlice_eq key h
+end BC.Rc2
